@@ -450,7 +450,7 @@ func (e *Engine) frameObligations(c *Contract, key string, st *State, vars map[s
 		// `modifies *` is the whole Go heap; ghost variables are spared when a caller applies such a contract,
 		// so here every ghost the contract does not list must be shown unchanged
 		for _, k := range sortedKeys(st.heap) {
-			if !strings.HasPrefix(k, "G:") || strings.HasPrefix(k, "G:$") || fi.keys[k] || fi.ghosts {
+			if !strings.HasPrefix(k, "G:") || strings.HasPrefix(k, "G:$") || isLogGhostKey(k) || fi.keys[k] || fi.ghosts {
 				continue
 			}
 			final := st.heap[k]
@@ -477,7 +477,7 @@ func (e *Engine) frameObligations(c *Contract, key string, st *State, vars map[s
 			e.emit(&Obligation{Kind: "frame", Fn: key, Label: shortHeapKey(k), PC: st.pc, Goal: e.frameGoal(st, k), Src: "unchanged " + k + " (modifies * except)", Trace: st.trace})
 		}
 		for k := range st.hv {
-			if strings.HasPrefix(k, "G:") && !strings.HasPrefix(k, "G:$") && !fi.keys[k] && !fi.ghosts {
+			if strings.HasPrefix(k, "G:") && !strings.HasPrefix(k, "G:$") && !isLogGhostKey(k) && !fi.keys[k] && !fi.ghosts {
 				if _, inHeap := st.heap[k]; !inHeap {
 					if srt, known := heapSorts[k]; known {
 						e.emit(&Obligation{Kind: "frame", Fn: key, Label: shortHeapKey(k), PC: st.pc, Goal: Eq(st.heapGet(k, srt), e.entry.heapGet(k, srt)), Src: "ghost " + k[2:] + " is not listed in modifies and must be unchanged", Trace: st.trace})
@@ -493,7 +493,7 @@ func (e *Engine) frameObligations(c *Contract, key string, st *State, vars map[s
 	}
 	done := map[string]bool{}
 	for _, k := range sortedKeys(st.heap) {
-		if fi.keys[k] || strings.HasPrefix(k, "G:$") {
+		if fi.keys[k] || strings.HasPrefix(k, "G:$") || isLogGhostKey(k) {
 			continue // (G:$... are model-internal ghosts, e.g. the current state of an fsm object)
 		}
 		final := st.heap[k]
@@ -506,13 +506,21 @@ func (e *Engine) frameObligations(c *Contract, key string, st *State, vars map[s
 		e.emit(&Obligation{Kind: "frame", Fn: key, Label: shortHeapKey(k), PC: st.pc, Goal: e.frameGoal(st, k), Src: "unchanged " + k, Trace: st.trace})
 	}
 	for k := range st.hv {
-		if !fi.keys[k] && !done[k] {
+		if !fi.keys[k] && !done[k] && !isLogGhostKey(k) {
 			if _, known := heapSorts[k]; known {
 				e.emit(&Obligation{Kind: "frame", Fn: key, Label: shortHeapKey(k), PC: st.pc, Goal: e.frameGoal(st, k), Src: "unchanged " + k, Trace: st.trace})
 			}
 		}
 	}
 }
+
+// Log ghosts (declared with a name that starts with "Log", integer counters) count events of a run - how often a
+// cross-contract call of some kind was asked for. They are only ever incremented (by the trusted spec of the call they
+// count), carry no frame obligation, and a callee that gives up all ghosts (`modifies *, ghosts`) is assumed not to
+// decrease them. A caller may therefore LOSE increments (a callee whose contract does not list the counter is taken to
+// leave it alone) but never gains one: clauses of the form "the counter grew" (a call WAS made) are sound, clauses that
+// bound a counter from above are not and must not be written.
+func isLogGhostKey(k string) bool { return strings.HasPrefix(k, "G:Log") }
 
 func shortHeapKey(k string) string {
 	// F:github.com/x/y/pkg.Type.f -> pkg.Type.f
